@@ -24,6 +24,7 @@ type Fail struct {
 	Impl      string `json:"impl,omitempty"`
 	Deviation string `json:"deviation,omitempty"`
 	Engine    string `json:"engine,omitempty"`
+	Shape     string `json:"shape,omitempty"`
 	Msg       string `json:"msg"`
 	Case      any    `json:"case,omitempty"`
 	Src       string `json:"src,omitempty"`
